@@ -1,9 +1,76 @@
 import GnpyDriver.JsonUtil
+import GnpyDriver.C01
 import GnpyModel
 /- driver handlers for property C02 (ops are named "c02.<name>") -/
 open Lean
 namespace Gnpy.Drv.C02
+open Gnpy.Spectrum Gnpy.Drv.C01
 
-def handlers : List (String × Handler) := []
+/-- an element as one channel sees it: `{"k": kind, "v": [floats], "voa": null|float}` -/
+def getElem (j : Json) : R (Elem Float) := do
+  let k ← fStr j "k"
+  let v ← fList getF j "v"
+  match k, v with
+  | "fused", [l] => return .fused l
+  | "roadm", [m, d] => return .roadm m d
+  | "fiber", [i, x, f, o] => return .fiber i x f o
+  | "raman", [i, x, e, f, o] => return .raman i x e f o
+  | "edfa", [e, g] => return .edfa (← fOpt getF j "voa") e g
+  | "trx", [] => return .trx
+  | _, _ => throw s!"bad element {k}"
+
+def opKind : Op Float → String
+  | .attLin _ => "attLin" | .attDb _ => "attDb" | .gainLin _ => "gainLin" | .gainDb _ => "gainDb"
+  | .addAse _ => "addAse" | .addNli _ => "addNli"
+
+/-- the three figures the property talks about, in the total (noise-to-signal) form and as SNRs -/
+def jFig (c : Chan Float) : Json :=
+  Json.arr #[jF c.p, jF c.s, jF c.a, jF c.n, jF c.snrLin, jF c.snrNli, jF c.gsnr]
+
+/-- one element call on a spectrum: channel i sees elems[i] -/
+def elemH (j : Json) : R Json := do
+  let chans ← fList getChan j "chans"
+  let es ← fList getElem j "elems"
+  if chans.length ≠ es.length then throw "chans/elems length mismatch"
+  return jObj [("out", jList jFig (applyElems es chans)),
+               ("kinds", jList (fun e => jList (fun o => jStr (opKind o)) (Elem.ops e)) es)]
+
+/-- a whole path for every channel: `elems[i]` is the element list channel i sees; returns the state after
+every element -/
+def pathH (j : Json) : R Json := do
+  let chans ← fList getChan j "chans"
+  let ess ← fList (getList getElem) j "paths"
+  if chans.length ≠ ess.length then throw "chans/paths length mismatch"
+  let trace (c : Chan Float) (es : List (Elem Float)) : List (Chan Float) :=
+    (es.foldl (fun (acc : Chan Float × List (Chan Float)) e =>
+      let c' := e.apply acc.1
+      (c', c' :: acc.2)) (c, [])).2.reverse
+  return Json.arr (List.zipWith (fun c es => jObj [("trace", jList jFig (trace c es)), ("end", jFig (path es c))]) chans ess).toArray
+
+/-- `Multiband_amplifier.__call__` bookkeeping: `amps` = list of `{"fmin","fmax","elems":[[freq, elem],..]}`;
+`sp` = keyed channels, `slot` = `[[freq, slot_width]]` (integer Hz) -/
+def multibandH (j : Json) : R Json := do
+  let sp ← fList getKChan j "sp"
+  let slots ← fList (fun x => do
+      match ← getArr x with
+      | [f, s] => return ((← getInt f), (← getInt s))
+      | _ => throw "slot pair expected") j "slot"
+  let amps ← fList (fun a => do
+      let lo ← fInt a "fmin"
+      let hi ← fInt a "fmax"
+      let els ← fList (fun x => do
+          match ← getArr x with
+          | [f, e] => return ((← getInt f), (← getElem e))
+          | _ => throw "freq/elem pair expected") a "elems"
+      let keep : Int → Bool := fun f =>
+        match slots.lookup f with
+        | some sw => decide (2 * f - sw ≥ 2 * lo) && decide (2 * f + sw ≤ 2 * hi)
+        | none => false
+      let el : Int → Elem Float := fun f => (els.lookup f).getD .trx
+      return (keep, el)) j "amps"
+  return jOpt (jList jKChan) (multiband amps sp)
+
+def handlers : List (String × Handler) :=
+  [("c02.elem", elemH), ("c02.path", pathH), ("c02.multiband", multibandH)]
 
 end Gnpy.Drv.C02
